@@ -1162,6 +1162,46 @@ def _(vm, a, ci):
     return z3.fpBVToFP(b, F64)
 
 
+@path('<impl f64>::clamp', 'f64::clamp')
+def _(vm, a, ci):
+    x, lo_, hi_ = a[0], a[1], a[2]
+    bad_ = vm.fbinop('Gt', lo_, hi_)
+    nanb = z3.Or(z3.fpIsNaN(_fp(vm, lo_)), z3.fpIsNaN(_fp(vm, hi_))) if not (isinstance(lo_, float) and isinstance(hi_, float)) else (lo_ != lo_ or hi_ != hi_)
+    if truth(vm, bad_) or truth(vm, nanb): raise PanicEdge('panic', 'f64::clamp: min > max, or either was NaN')
+    if all(isinstance(v, float) for v in (x, lo_, hi_)): return x if x != x else min(max(x, lo_), hi_)
+    x, lo_, hi_ = _fp(vm, x), _fp(vm, lo_), _fp(vm, hi_)
+    return z3.If(z3.fpLT(x, lo_), lo_, z3.If(z3.fpGT(x, hi_), hi_, x))
+
+
+@path('<impl f64>::mul_add', 'f64::mul_add')
+def _(vm, a, ci):
+    if all(isinstance(v, float) for v in a[:3]): return math.fma(a[0], a[1], a[2]) if hasattr(math, 'fma') else a[0] * a[1] + a[2]
+    return z3.fpFMA(z3.RNE(), _fp(vm, a[0]), _fp(vm, a[1]), _fp(vm, a[2]))
+
+
+@path('<impl f64>::rem_euclid', 'f64::rem_euclid')
+def _(vm, a, ci):
+    x, y = a[0], a[1]
+    if isinstance(x, float) and isinstance(y, float):
+        if y == 0 or x != x or y != y or math.isinf(x): return float('nan')
+        r = math.fmod(x, y); return r + abs(y) if r < 0 else r
+    x, y = _fp(vm, x), _fp(vm, y)
+    r = z3.fpRem(x, y)          # IEEE remainder is not fmod: only used through the sign correction below for |r| <= |y|/2 cases
+    raise Unmodelled('f64::rem_euclid on symbolic operands')
+
+
+@path('<impl char>::from_digit', 'char::from_digit')
+def _(vm, a, ci):
+    d, radix = a[0], a[1]
+    if not isinstance(radix, int): raise Unmodelled('char::from_digit with a symbolic radix')
+    if radix > 36: raise PanicEdge('panic', 'from_digit: radix is too high (maximum 36)')
+    if not isinstance(d, int):
+        if truth(vm, z3.UGE(d, radix)): return NONE()
+        return some(z3.If(z3.ULT(d, 10), d + 48, d + 87))
+    if d >= radix: return NONE()
+    return some(48 + d if d < 10 else 87 + d)
+
+
 @path('<impl f64>::abs', 'f64::abs')
 def _(vm, a, ci): return abs(a[0]) if isinstance(a[0], float) else z3.fpAbs(a[0])
 
@@ -1287,6 +1327,57 @@ for _t, (_bits, _sg) in list(INT_TYPES.items()):
 
         @path(f'<impl {t}>::max_value', f'<impl {t}>::min_value')
         def _(vm, a, ci): return hi if ci.method.startswith('max') else lo
+
+        @path(f'<impl {t}>::abs', f'<impl {t}>::wrapping_abs', f'<impl {t}>::unsigned_abs', f'<impl {t}>::checked_abs', f'<impl {t}>::checked_neg', f'<impl {t}>::wrapping_neg', f'<impl {t}>::signum')
+        def _(vm, a, ci):
+            x = a[0]; m = ci.method
+            ismin = (x == lo) if isinstance(x, int) else (truth(vm, x == lo) if sg else False)
+            neg = (x < 0) if isinstance(x, int) else (truth(vm, x < 0) if sg else False)
+            if m == 'signum': return (0 if (x == 0 if isinstance(x, int) else truth(vm, x == 0)) else (-1 if neg else 1))
+            if m in ('checked_neg', 'wrapping_neg'):
+                zero = (x == 0) if isinstance(x, int) else truth(vm, x == 0)
+                if not sg: return (some(0) if zero else NONE()) if m == 'checked_neg' else (0 if zero else vm.binop('Sub', 0, x, t))
+                if ismin: return NONE() if m == 'checked_neg' else x
+                return some(-x) if m == 'checked_neg' else -x
+            if ismin and sg:
+                if m == 'abs': raise PanicEdge('panic', 'attempt to negate with overflow (abs of MIN)')
+                if m == 'checked_abs': return NONE()
+                if m == 'wrapping_abs': return x
+                return 1 << (bits - 1)
+            r = (-x if neg else x)
+            return some(r) if m == 'checked_abs' else r
+
+        @path(f'<impl {t}>::checked_div', f'<impl {t}>::checked_rem', f'<impl {t}>::rem_euclid', f'<impl {t}>::div_euclid')
+        def _(vm, a, ci):
+            x, y = a; m = ci.method
+            zero = (y == 0) if isinstance(y, int) else truth(vm, y == 0)
+            if zero:
+                if m.startswith('checked'): return NONE()
+                raise PanicEdge('panic', 'attempt to divide by zero')
+            if sg:
+                ov = ((x == lo) if isinstance(x, int) else truth(vm, x == lo)) and ((y == -1) if isinstance(y, int) else truth(vm, y == -1))
+                if ov:
+                    if m.startswith('checked'): return NONE()
+                    raise PanicEdge('panic', 'attempt to divide with overflow')
+            if m in ('checked_div', 'checked_rem'):
+                r = vm.binop('Div' if m == 'checked_div' else 'Rem', x, y, t); return some(r)
+            if not (isinstance(x, int) and isinstance(y, int)): raise Unmodelled(f'{m} on symbolic integers')
+            q, r = divmod(x, abs(y)); q = q if y > 0 else -q
+            return r if m == 'rem_euclid' else q
+
+        @path(f'<impl {t}>::is_power_of_two', f'<impl {t}>::leading_zeros', f'<impl {t}>::trailing_zeros', f'<impl {t}>::count_ones')
+        def _(vm, a, ci):
+            x = a[0]
+            if not isinstance(x, int): raise Unmodelled(f'{ci.method} on a symbolic integer')
+            u = x & ((1 << bits) - 1)
+            if ci.method == 'is_power_of_two': return u != 0 and (u & (u - 1)) == 0
+            if ci.method == 'count_ones': return bin(u).count('1')
+            if ci.method == 'leading_zeros': return bits - u.bit_length()
+            return bits if u == 0 else (u & -u).bit_length() - 1
+
+        @path(f'<impl {t}>::overflowing_add', f'<impl {t}>::overflowing_sub', f'<impl {t}>::overflowing_mul')
+        def _(vm, a, ci):
+            return vm.binop({'overflowing_add': 'AddWithOverflow', 'overflowing_sub': 'SubWithOverflow', 'overflowing_mul': 'MulWithOverflow'}[ci.method], a[0], a[1], t)
 
         @path(f'<impl {t}>::from_str_radix')
         def _(vm, a, ci):
